@@ -178,6 +178,42 @@ def check_layout(res, L, rng, tag, reps, ob, model):
                 ob.meta.append(('series', tag, L, dict(op=nm, observed=got.value.tolist(), arg=[core.fstr(x) for x in v], nontrivial=nt)))
 
 
+def check_storage_orders(res, rng):
+    """the series functions do not depend on where a layout stores its blades: on a layout whose order does not begin with the scalar (and on a
+    bitmap-order one) every function returns the coefficients it returns on the default order, permuted (the default order is the one compared
+    with the exact model)"""
+    import numpy as np
+    import math
+    from harness import real
+    from clifford import taylor_expansions as te, MultiVector
+    for sig, order in (([1, 1, -1], [3, 0, 1, 2, 4, 5, 6, 7]), ([1, 1, -1], list(range(8))), ([1, -1, 0, 1], [5, 3] + [b for b in range(16) if b not in (5, 3)])):
+        Ld = real.make_layout(sig)
+        Lp = real.make_layout(sig, order=order)
+        i2b_d = Ld._basis_blade_order.index_to_bitmap.tolist()
+        b2i_p = Lp._basis_blade_order.bitmap_to_index.tolist()
+        perm = [b2i_p[b] for b in i2b_d]            # slot in Lp of the blade stored at slot i of Ld
+        site = dict(sig=sig, order=order)
+        for r in range(3):
+            v = rng.uniform(-1.0, 1.0, size=Ld.gaDims)
+            if r == 0:
+                v = np.zeros(Ld.gaDims)
+                v[0], v[4] = 0.5, 0.7                 # scalar + one bivector
+            vp = np.zeros_like(v)
+            vp[perm] = v
+            Md, Mp = MultiVector(Ld, v), MultiVector(Lp, vp)
+            fns = [('exp', te.exp), ('M.exp()', lambda m: m.exp()), ('np.exp', lambda m: np.exp(m)), ('e**M', lambda m: math.e ** m),
+                   ('sin', te.sin), ('cos', te.cos), ('sinh', te.sinh), ('cosh', te.cosh)]
+            for name, f in fns:
+                res.case(('storage-order', name, str(order), v.tolist()), nontrivial=True)
+                res.count('storage_order')
+                a, b = f(Md).value, f(Mp).value
+                want = np.zeros_like(a)
+                want[perm] = a
+                if not rel_ok(b, want, float(np.max(np.abs(want))) + 1.0, 1e-10):
+                    res.violate(f'{name} on a layout with another blade order (scalar not first / bitmap order) differs from the default-order result, permuted',
+                                dict(site, M=v.tolist()), b.tolist(), want.tolist(), dict(site, op='storage-order:' + name))
+
+
 def run_job(job, tier, seed):
     from harness import real
     import numpy as np
@@ -185,6 +221,7 @@ def run_job(job, tier, seed):
     rng = gen.rng_for(seed, 'C16', job)
     ob = common.OpBatch()
     if job == 'series':
+        common.gcall(res, check_storage_orders, rng)
         sigs = [[1, 1], [1, -1], [0, 1], [1, 1, 1], [1, 1, -1], [0, 1, 1], [-1, -1, -1], [1, 1, 1, 1], [1, 1, 1, -1], [0, 1, 1, 1], [1, -1, 1, -1]]
         if tier == 'thorough':
             sigs += [[1, 1, 1, 1, -1], [0, 0, 1, 1], [1] * 5]
